@@ -462,10 +462,10 @@ end Shared
 /-! ## thread::join, sleep_for, thread-local pointers (model `Th`) -/
 section Thread
 open Th
-variable {n : Nat} {s : State}
+variable {inits : Var → Ptr} {n : Nat} {s : State}
 
 /-- `join` returns only after the thread function of the joined fiber has returned — and that fiber never runs again -/
-theorem join_after_finish (h : Reachable n s) {f j : Fid} {s' : State} (hs : Step s (.joinRet f j) s') :
+theorem join_after_finish (h : Reachable inits n s) {f j : Fid} {s' : State} (hs : Step s (.joinRet f j) s') :
     s.fin j = true ∧ s.pc j = .done := by
   have hi := inv_reachable h
   match hs with
@@ -477,49 +477,65 @@ theorem sleep_not_early {f : Fid} {t : Nat} {s' : State} (hs : Step s (.sleepWak
   match hs with
   | .sleepWake _ _ _ dl hp hd _ => exact ⟨dl, hp, hd⟩
 
-/-- thread-local pointers are per fiber: `p.Get()` / `q.Get()` return what *this* fiber last assigned to that pointer —
-    by `p = ptr`, `q = ptr` or the pointer copy `q = p` — and null if it never did, whatever other fibers do; a
-    never-assigned pointer of another pointee type reads null; and an assignment by one fiber changes nothing for
-    another -/
-theorem tls_per_fiber (h : Reachable n s) {f : Fid} {s' : State} :
-    (∀ r v, Step s (.getP f r) s' → s.slot0 f = some v → r = some v) ∧
-    (∀ r, Step s (.getQ f r) s' → (∀ v, s.lastQ f = some v → r = v) ∧ (s.lastQ f = none → r = none)) ∧
-    (∀ r, Step s (.getL f r) s' → r = none) ∧
-    (∀ l g, Step s l s' → (l = .setP f 0 ∨ (∃ v, l = .setP f v) ∨ (∃ v, l = .setQ f v) ∨ l = .copyQP f) → g ≠ f →
-      read0 s' g = read0 s g ∧ read1 s' g = read1 s g) := by
+/-- thread-local pointers are per fiber, with the semantics of `thread_local T* x = initialiser;`, for any number of
+    variables of any pointee types and any initialisers: `x.Get()` returns what *this* fiber last assigned to *this*
+    variable — a pointer or nullptr, directly or by a copy `x = y` from another thread-local (whose value is the one this
+    fiber reads from `y`) — and the variable's initialiser if it never assigned it, whatever other fibers do; an
+    assignment changes nothing for another fiber or another variable -/
+theorem tls_per_fiber (h : Reachable inits n s) {f : Fid} {v : Var} {s' : State} :
+    (∀ r, Step s (.get f v r) s' → r = specRead inits s v f) ∧
+    (∀ x, Step s (.set f v x) s' → specRead inits s' v f = x) ∧
+    (∀ src, Step s (.copy f v src) s' → specRead inits s' v f = specRead inits s src f) ∧
+    (∀ l, Step s l s' → ∀ u g, (u ≠ v ∨ g ≠ f) → (∃ x, l = .set f v x) ∨ (∃ src, l = .copy f v src) →
+      specRead inits s' u g = specRead inits s u g) := by
   have hi := tls_inv_reachable h
   refine ⟨?_, ?_, ?_, ?_⟩
-  · intro r v hs hv
-    match hs with
-    | .getP .. => simp [read0, hv]
   · intro r hs
     match hs with
-    | .getQ .. =>
-        refine ⟨fun v hv => ?_, fun hn => ?_⟩
-        · have := hi.q_own f v hv
-          cases v <;> simp_all [read1, hi.def1]
-        · simp [read1, hi.q_none f hn, hi.def1]
-  · intro r hs
+    | .get .. => exact read_eq_spec hi v f
+  · intro x hs
     match hs with
-    | .getL .. => rfl
-  · intro l g hs hl hg
-    rcases hl with hl | ⟨v, hl⟩ | ⟨v, hl⟩ | hl <;> subst hl <;> cases hs <;>
-      simp [read0, read1, doCopy, upd_apply, hg]
+    | .set .. => simp [specRead, doSet]
+  · intro src hs
+    match hs with
+    | .copy .. => simp [specRead, doSet]; exact read_eq_spec hi src f
+  · intro l hs u g hne hl
+    have key : ∀ x, specRead inits (doSet s f v x) u g = specRead inits s u g := by
+      intro x
+      simp only [specRead, doSet, upd2_apply]
+      rcases hne with hu | hg
+      · simp [hu]
+      · simp [hg]
+    rcases hl with ⟨x, hl⟩ | ⟨src, hl⟩ <;> subst hl
+    · match hs with
+      | .set .. => exact key x
+    · match hs with
+      | .copy .. => exact key _
 
-theorem validator_sound_Th {l : Label} {s' : State} (h : Reachable n s) (hn : next s l = some s') : Reachable n s' :=
-  .step h (next_sound hn)
+theorem validator_sound_Th {l : Label} {s' : State} (h : Reachable inits n s) (hn : next s l = some s') :
+    Reachable inits n s' := .step h (next_sound hn)
 
 /-- a join that has to wait: f0 joins f1 while it runs, f1 finishes, the join returns -/
-example : ∃ s, Reachable 2 s ∧ s.pc 0 = .idle ∧ s.fin 1 = true := by
-  have h := reach_run (n := 2) Reachable.init (ls := [.joinStart 0 1, .work 1, .finish 1, .joinRet 0 1]) (s' := _) rfl
+example : ∃ s, Reachable (fun _ => none) 2 s ∧ s.pc 0 = .idle ∧ s.fin 1 = true := by
+  have h := reach_run (inits := fun _ => none) (n := 2) Reachable.init
+    (ls := [.joinStart 0 1, .work 1, .finish 1, .joinRet 0 1]) (s' := _) rfl
   exact ⟨_, h, rfl, rfl⟩
 
-/-- the schedules that exhibited D14 and D13: f0's `q = p` is invisible to f1, visible to f0 itself (also over an own
-    earlier assignment), and the `long*` stays null -/
-example : ∃ s, Reachable 2 s ∧ read1 s 1 = none ∧ read1 s 0 = some 1 ∧ readL s 0 = none := by
-  have h := reach_run (n := 2) Reachable.init (ls := [.setQ 0 3, .setP 0 1, .copyQP 0, .getQ 0 (some 1), .getQ 1 none,
-    .getL 0 none]) (s' := _) rfl
+/-- the schedules that exhibited D14 and D13 (variables 0 = `p`, 1 = `q`, 2 = a `long*`): f0's `q = p` is invisible to f1,
+    visible to f0 itself (also over an own earlier assignment), and the third variable stays null -/
+example : ∃ s, Reachable (fun _ => none) 2 s ∧ read s 1 1 = none ∧ read s 1 0 = some 1 ∧ read s 2 0 = none := by
+  have h := reach_run (inits := fun _ => none) (n := 2) Reachable.init
+    (ls := [.set 0 1 (some 3), .set 0 0 (some 1), .copy 0 1 0, .get 0 1 (some 1), .get 1 1 none, .get 0 2 none]) (s' := _) rfl
   exact ⟨_, h, rfl, rfl, rfl⟩
+
+/-- a variable with a non-null initialiser (variable 4, `&slot[7]`): a fiber that stores nullptr — directly or by copying a
+    null thread-local (variable 3) — reads nullptr, not the initialiser; the other fiber still reads the initialiser -/
+example : ∃ s, Reachable (fun v => if v = 4 then some 7 else none) 2 s ∧
+    read s 4 0 = none ∧ read s 4 1 = some 7 := by
+  have h := reach_run (inits := fun v => if v = 4 then some 7 else none) (n := 2) Reachable.init
+    (ls := [.get 0 4 (some 7), .set 0 4 none, .get 0 4 none, .set 0 4 (some 2), .copy 0 4 3, .get 0 4 none, .get 1 4 (some 7)])
+    (s' := _) rfl
+  exact ⟨_, h, rfl, rfl⟩
 
 end Thread
 
